@@ -295,10 +295,85 @@ pub fn run_aftermath(n: usize, seed: u64) -> ScaleOut {
     o
 }
 
+/// "churn": a long-lived two-object cycle whose hub adopts and unadopts `n` short-lived peers, one
+/// at a time (the peers stay allocated, so that every one of them has its own address). The cost of
+/// a trace through the hub and of finally collecting the cycle must depend on the adoptions that
+/// exist, not on the adoptions that were ever made and undone.
+pub fn run_churn(n: usize, _seed: u64) -> ScaleOut {
+    DEPTH.store(0, Relaxed);
+    MAX_DEPTH.store(0, Relaxed);
+    DROPS.store(0, Relaxed);
+    let t0 = std::time::Instant::now();
+    let hub = Rc::new(Big { out: RefCell::new(Vec::new()) });
+    let partner = Rc::new(Big { out: RefCell::new(Vec::new()) });
+    unsafe {
+        Rc::adopt_unchecked(&hub, &partner);
+        Rc::adopt_unchecked(&partner, &hub);
+    }
+    hub.out.borrow_mut().push(Rc::clone(&partner));
+    partner.out.borrow_mut().push(Rc::clone(&hub));
+    drop(partner);
+    // every drop of a second handle to the hub runs one trace (which finds the cycle still held)
+    let probe = |hub: &Rc<Big>| -> (u64, usize) {
+        let c0 = counters();
+        let t = thread_cpu_us();
+        for _ in 0..100 {
+            drop(Rc::clone(hub));
+        }
+        (thread_cpu_us() - t, counters()[0] - c0[0])
+    };
+    let (cpu_before, traces_before) = probe(&hub);
+    let mut parked: Vec<Rc<Big>> = Vec::with_capacity(n);
+    for _ in 0..n {
+        let task = Rc::new(Big { out: RefCell::new(Vec::new()) });
+        unsafe {
+            Rc::adopt_unchecked(&hub, &task);
+        }
+        Rc::unadopt(&hub, &task);
+        parked.push(task);
+    }
+    let (cpu_after, traces_after) = probe(&hub);
+    let build_ms = t0.elapsed().as_millis();
+    let c0 = counters();
+    let t1 = std::time::Instant::now();
+    let cpu0 = thread_cpu_us();
+    drop(hub);
+    let collect_cpu_us = thread_cpu_us() - cpu0;
+    let collect_ms = t1.elapsed().as_millis();
+    let c1 = counters();
+    let group_drops = DROPS.load(Relaxed);
+    drop(parked);
+    ScaleOut {
+        n,
+        pairs: 2,
+        loopbacks: 0,
+        edges: 2,
+        traces: c1[0] - c0[0],
+        pops: c1[1] - c0[1],
+        expansions: c1[2] - c0[2],
+        entries: c1[3] - c0[3],
+        group_members: c1[8] - c0[8],
+        drops: group_drops,
+        max_depth: MAX_DEPTH.load(Relaxed),
+        build_ms,
+        collect_ms,
+        collect_cpu_us,
+        small_before_cpu_us: cpu_before,
+        small_after_cpu_us: cpu_after,
+        // number of traces the two probes ran (must be 100 each for the comparison to mean anything)
+        small_before_bytes: traces_before as u64,
+        small_after_bytes: traces_after as u64,
+    }
+}
+
 pub fn run_on_small_stack(shape: String, n: usize, seed: u64, stack_kib: usize) -> Result<ScaleOut, String> {
     let h = std::thread::Builder::new()
         .stack_size(stack_kib * 1024)
-        .spawn(move || if shape == "aftermath" { run_aftermath(n, seed) } else { run(&shape, n, seed) })
+        .spawn(move || match shape.as_str() {
+            "aftermath" => run_aftermath(n, seed),
+            "churn" => run_churn(n, seed),
+            _ => run(&shape, n, seed),
+        })
         .map_err(|e| format!("spawn: {}", e))?;
     h.join().map_err(|_| "scale thread panicked".to_string())
 }
